@@ -443,6 +443,114 @@ func emitAudit(fset *token.FileSet, files map[string]*ast.File) (string, error) 
 			})
 		}
 	}
-	sb.WriteString("Definition ctxpool_put_calls : list string := " + q(putCalls) + ".\n")
+	sb.WriteString("Definition ctxpool_put_calls : list string := " + q(putCalls) + ".\n\n")
+	// (v) package-level variables stored to from function bodies (anything but
+	// init and the Register* functions): shared mutable state outside the
+	// registry's locks
+	pkgVars := map[string]bool{}
+	for _, f := range files {
+		for _, d := range f.Decls {
+			gd, ok := d.(*ast.GenDecl)
+			if !ok || gd.Tok != token.VAR {
+				continue
+			}
+			for _, sp := range gd.Specs {
+				if vs, ok := sp.(*ast.ValueSpec); ok {
+					for _, n := range vs.Names {
+						if n.Name != "_" {
+							pkgVars[n.Name] = true
+						}
+					}
+				}
+			}
+		}
+	}
+	var gw []string
+	var fnames []string
+	for fn := range files {
+		fnames = append(fnames, fn)
+	}
+	sort.Strings(fnames)
+	for _, fn := range fnames {
+		if strings.HasSuffix(fn, "_test.go") || fn == "verif_hooks.go" {
+			continue
+		}
+		for _, d := range files[fn].Decls {
+			fd, ok := d.(*ast.FuncDecl)
+			if !ok || fd.Body == nil || fd.Name.Name == "init" || strings.HasPrefix(fd.Name.Name, "Register") {
+				continue
+			}
+			// names declared locally (parameters, :=, var) shadow package variables
+			local := map[string]bool{}
+			if fd.Recv != nil {
+				for _, f := range fd.Recv.List {
+					for _, n := range f.Names {
+						local[n.Name] = true
+					}
+				}
+			}
+			if fd.Type.Params != nil {
+				for _, f := range fd.Type.Params.List {
+					for _, n := range f.Names {
+						local[n.Name] = true
+					}
+				}
+			}
+			if fd.Type.Results != nil {
+				for _, f := range fd.Type.Results.List {
+					for _, n := range f.Names {
+						local[n.Name] = true
+					}
+				}
+			}
+			ast.Inspect(fd.Body, func(n ast.Node) bool {
+				switch x := n.(type) {
+				case *ast.AssignStmt:
+					if x.Tok == token.DEFINE {
+						for _, l := range x.Lhs {
+							if id, ok := l.(*ast.Ident); ok {
+								local[id.Name] = true
+							}
+						}
+					}
+				case *ast.ValueSpec:
+					for _, id := range x.Names {
+						local[id.Name] = true
+					}
+				case *ast.RangeStmt:
+					if x.Tok == token.DEFINE {
+						if id, ok := x.Key.(*ast.Ident); ok {
+							local[id.Name] = true
+						}
+						if id, ok := x.Value.(*ast.Ident); ok {
+							local[id.Name] = true
+						}
+					}
+				}
+				return true
+			})
+			note := func(l ast.Expr, pos token.Pos) {
+				if root, _ := rootIdent(l); root != "" && pkgVars[root] && !local[root] {
+					ps := fset.Position(pos)
+					gw = append(gw, fmt.Sprintf("%s:%s %s", fn, fd.Name.Name, root))
+					_ = ps
+				}
+			}
+			ast.Inspect(fd.Body, func(n ast.Node) bool {
+				switch x := n.(type) {
+				case *ast.AssignStmt:
+					if x.Tok != token.DEFINE {
+						for _, l := range x.Lhs {
+							note(l, x.Pos())
+						}
+					}
+				case *ast.IncDecStmt:
+					note(x.X, x.Pos())
+				}
+				return true
+			})
+		}
+	}
+	sb.WriteString("Definition package_level_stores : list string := " + q(gw) + ".\n")
 	return sb.String(), nil
 }
